@@ -77,6 +77,8 @@ func (g *Gen) havocAll(f *Frame) {
 	f.st = &State{comp: map[string]string{}, base: fmt.Sprintf("e%d", g.nfresh)}
 	g.assume(f.en, fmt.Sprintf("(<= %s %s)", old, g.now(f.st)))
 	g.preservePrivate(f, oldSt, f.st, nil)
+	// struct-typed locals whose address never leaves the function cannot be reached by the callee
+	g.preservePrivateStructs(f, oldSt, f.st, nil)
 }
 
 func (g *Gen) mayPanic(f *Frame, what string) {
